@@ -325,6 +325,39 @@ fn observe_no_loss(w: &mut World, types: &[TypeDef], n_ctx: usize, what: &str, r
     Ok(None)
 }
 
+/// What is on disk and what the engine lists as live, for the detail of a failure.
+fn layout_dump(w: &mut World, shards: usize) -> Value {
+    let mut out = vec![];
+    for s in 0..shards {
+        let live = w.db.live(s).unwrap_or_default();
+        let sdir = w.case.path.join("cols").join(format!("shard-{}", s));
+        let mut dirs = vec![];
+        if let Ok(rd) = std::fs::read_dir(&sdir) {
+            for e in rd.flatten() {
+                let p = e.path();
+                let name = e.file_name().to_string_lossy().to_string();
+                if p.is_dir() {
+                    let n = std::fs::read_dir(&p).map(|d| d.count()).unwrap_or(0);
+                    let mut sub = vec![];
+                    if name == ".reclaim" {
+                        if let Ok(r2) = std::fs::read_dir(&p) {
+                            for b in r2.flatten() {
+                                let inner: Vec<String> = std::fs::read_dir(b.path()).map(|d| d.flatten().map(|x| x.file_name().to_string_lossy().to_string()).collect()).unwrap_or_default();
+                                sub.push(json!({"batch": b.file_name().to_string_lossy(), "entries": inner}));
+                            }
+                        }
+                    }
+                    dirs.push(json!({"dir": name, "entries": n, "reclaim": sub}));
+                } else {
+                    dirs.push(json!({"file": name, "len": e.metadata().map(|m| m.len()).unwrap_or(0)}));
+                }
+            }
+        }
+        out.push(json!({"shard": s, "live": live, "on_disk": dirs}));
+    }
+    json!(out)
+}
+
 fn run_crash_case(c: &CrashCase, rep: &mut CaseReport) -> Verdict {
     let b = &c.base;
     let mut w = match World::start("c05x", &b.cfg, &b.types, false) {
@@ -385,7 +418,10 @@ fn run_crash_case(c: &CrashCase, rep: &mut CaseReport) -> Verdict {
     }
     // (1) right after the restart the previous answers still hold (here: nothing is lost)
     match observe_no_loss(&mut w, &b.types, b.n_ctx, "after-restart", rep) {
-        Ok(Some((s, d))) => return Verdict::fail(s, d),
+        Ok(Some((s, mut d))) => {
+                d["layout"] = layout_dump(&mut w, b.cfg.shard_count);
+                return Verdict::fail(s, d);
+            }
         Ok(None) => {}
         Err(e) => return problem_verdict(e, &mut w, rep),
     }
@@ -393,7 +429,10 @@ fn run_crash_case(c: &CrashCase, rep: &mut CaseReport) -> Verdict {
     let mut later_rounds = 0;
     // ONE later round per shard: cascades of rounds after an interrupted one re-create retired segment ids within one process
     // (open finding C11-segment-id-reuse) and then lose events now and then on the unchanged tree (DESIGN 7.3)
-    for _ in 0..1 {
+    // (experiment switches for DESIGN 7.4: VCHECK_C05_LATER_ROUNDS=<n> runs cascades, VCHECK_C05_JUDGE_EARLY judges the read right after a round)
+    let later_max: usize = std::env::var("VCHECK_C05_LATER_ROUNDS").ok().and_then(|v| v.parse().ok()).unwrap_or(1);
+    let judge_early = std::env::var("VCHECK_C05_JUDGE_EARLY").is_ok();
+    for _ in 0..later_max {
         let mut any = false;
         for s in 0..b.cfg.shard_count {
             if let Err(e) = w.db.barrier() {
@@ -420,6 +459,10 @@ fn run_crash_case(c: &CrashCase, rep: &mut CaseReport) -> Verdict {
             // a read right after a round that followed an interrupted one misses events now and then on the unchanged tree
             // (timing dependent, 1 replay in 6; see DESIGN 7.3): counted here, judged after the clean restart below, where
             // the answer depends on the directories only
+            Ok(Some((s, mut d))) if judge_early => {
+                d["layout"] = layout_dump(&mut w, b.cfg.shard_count);
+                return Verdict::fail(s, d);
+            }
             Ok(Some(_)) => rep.label("later-round:loss-seen-before-the-clean-restart(not judged)"),
             Ok(None) => {}
             Err(e) => return problem_verdict(e, &mut w, rep),
@@ -436,7 +479,10 @@ fn run_crash_case(c: &CrashCase, rep: &mut CaseReport) -> Verdict {
         return problem_verdict(e, &mut w, rep);
     }
     match observe_no_loss(&mut w, &b.types, b.n_ctx, "after-later-rounds-and-clean-restart", rep) {
-        Ok(Some((s, d))) => return Verdict::fail(s, d),
+        Ok(Some((s, mut d))) => {
+                d["layout"] = layout_dump(&mut w, b.cfg.shard_count);
+                return Verdict::fail(s, d);
+            }
         Ok(None) => {}
         Err(e) => return problem_verdict(e, &mut w, rep),
     }
